@@ -19,7 +19,7 @@ def interface():
         return _GEN
     from types import FunctionType
     from krrood.ormatic.alternative_mappings import FunctionMapping
-    cd = ClassDiagram([vmodel.VA, vmodel.VB, vmodel.VC, vmodel.VM, vmodel.VN, FunctionType])
+    cd = ClassDiagram([vmodel.VA, vmodel.VB, vmodel.VC, vmodel.VW, vmodel.VM, vmodel.VN, FunctionType])
     orm = ORMatic(class_dependency_graph=cd, type_mappings={vmodel.VK: vmodel.VKType, vmodel.jsonmodel.A: JSON, vmodel.jsonmodel2.A: JSON}, alternative_mappings=[vmodel.VMMapping, FunctionMapping])
     orm.make_all_tables()
     d = tempfile.mkdtemp(prefix="vorm_")
